@@ -21,7 +21,8 @@ MA == Dcl(0, 5, 8, <<>>,
        <<>>)
 (* u6 base with default: Option<enum> field, array of u2 with stride 2, write-only bit *)
 E3 == [name |-> "E", n |-> 2, exh |-> "false",
-       variants |-> << [name |-> "A", d |-> <<>>], [name |-> "B", d |-> <<0>>], [name |-> "D", d |-> <<0, 1>>] >>]
+       variants |-> << [name |-> "A", d |-> <<>>, cfg |-> "none", form |-> "lit"], [name |-> "B", d |-> <<0>>, cfg |-> "none", form |-> "lit"],
+                       [name |-> "D", d |-> <<0, 1>>, cfg |-> "none", form |-> "lit"] >>]
 MB == Dcl(1, 6, 8, << <<0, 5>> >>,
        << Fld("k", "optenum", 2, 1, << <<0, 1>> >>, FALSE, <<>>, <<>>, "rw"),
           Fld("arr", "uarb", 2, 0, << <<2, 3>> >>, FALSE, <<2>>, <<>>, "rw"),
@@ -43,8 +44,27 @@ MD == Dcl(3, 9, 16, <<>>,
           Fld("il", "uarb", 2, 0, << <<0, 0>>, <<4, 4>> >>, TRUE, <<3>>, <<1>>, "rw"),
           Fld("top", "bool", 1, 0, << <<8, 8>> >>, FALSE, <<>>, <<>>, "rw") >>,
        <<>>)
+(* builder models: default with a bit outside every writable field and a read-only gap; complete cover without default *)
+BD1 == Dcl(4, 5, 8, << <<4>> >>,
+        << Fld("a", "uarb", 2, 0, << <<0, 1>> >>, FALSE, <<>>, <<>>, "rw"),
+           Fld("b", "bool", 1, 0, << <<2, 2>> >>, FALSE, <<>>, <<>>, "w"),
+           Fld("c", "uarb", 2, 0, << <<3, 4>> >>, FALSE, <<>>, <<>>, "r") >>,
+        <<>>)
+BD2 == Dcl(5, 4, 8, <<>>,
+        << Fld("x", "uarb", 1, 0, << <<0, 0>> >>, FALSE, <<2>>, <<>>, "rw"),
+           Fld("y", "uarb", 2, 0, << <<3, 3>>, <<2, 2>> >>, TRUE, <<>>, <<>>, "rw") >>,
+        <<>>)
+(* not sound: two writable fields share bit 1 / incomplete without default *)
+BD3 == Dcl(6, 4, 8, <<>>,
+        << Fld("p", "uarb", 2, 0, << <<0, 1>> >>, FALSE, <<>>, <<>>, "rw"),
+           Fld("q", "uarb", 2, 0, << <<1, 2>> >>, FALSE, <<>>, <<>>, "rw") >>,
+        <<>>)
+BD4 == Dcl(7, 4, 8, <<>>,
+        << Fld("p", "uarb", 2, 0, << <<0, 1>> >>, FALSE, <<>>, <<>>, "rw") >>,
+        <<>>)
+BuilderDecls == {BD1, BD2, BD3, BD4}
 SmallDecls == {MA, MB}
 ByteDecls  == {MC8}
 NineDecls  == {MD}
-AllModelDecls == <<MA, MB, MC8, MD>>
+AllModelDecls == <<MA, MB, MC8, MD, BD1, BD2, BD3, BD4>>
 =============================================================================
